@@ -57,6 +57,16 @@ StartIdx(prog, name) == CHOOSE i \in 1..Len(prog) : prog[i].loc = name
 (* the observable write log: bytes whose final content differs from the initial memory, as a set of <<address, byte>> *)
 FinalWrites(env) == {<<env.wr[k][1], env.wr[k][2]>> : k \in {j \in 1..Len(env.wr) : WrLookup(env.wr[j][1], env.wr, 1) = env.wr[j][2]
                                                                                /\ env.wr[j][2] # MemByte(env.wr[j][1], env.seed)}}
+(* the write log (newest first) without the byte writes that store the value the byte already holds *)
+RECURSIVE EffectiveFrom(_, _, _)
+EffectiveFrom(wr, i, seed) ==       \* i runs from the oldest entry (Len) down to 1
+  IF i = 0 THEN <<>>
+  ELSE LET older == SubSeq(wr, i + 1, Len(wr))
+           prev == WrLookup(wr[i][1], older, 1)
+           curv == IF prev # <<>> THEN prev ELSE MemByte(wr[i][1], seed)
+           rest == EffectiveFrom(wr, i - 1, seed) IN
+       IF curv = wr[i][2] THEN rest ELSE rest \o <<wr[i]>>
+Effective(wr, seed) == EffectiveFrom(wr, Len(wr), seed)
 EquivCheck(it, env) ==
   LET ra == RunGraph(it.a, StartIdx(it.a, it.starta), env, it.w, it.budget)
       rb == RunGraph(it.b, StartIdx(it.b, it.startb), env, it.w, it.budget) IN
@@ -66,7 +76,9 @@ EquivCheck(it, env) ==
   ELSE IF ~rb.ok THEN "transformed-undefined"
   ELSE IF rb.exit = "budget" THEN "transformed-does-not-terminate-in-budget"
   ELSE IF DstVal(ra.env, it.w) # DstVal(rb.env, it.w) THEN "exit"
-  ELSE IF (IF it.ordered THEN ra.env.wr # rb.env.wr ELSE FinalWrites(ra.env) # FinalWrites(rb.env)) THEN "memory-writes"
+  ELSE IF (IF it.ordered THEN ra.env.wr # rb.env.wr ELSE FinalWrites(ra.env) # FinalWrites(rb.env))
+       THEN (IF it.ordered /\ Effective(ra.env.wr, env.seed) = Effective(rb.env.wr, env.seed)
+             THEN "only-writes-of-the-value-already-there-differ" ELSE "memory-writes")
   ELSE IF \E i \in 1..Len(it.obs) : FromBytes(ra.env.ids[it.obs[i].a], it.obs[i].w) # FromBytes(rb.env.ids[it.obs[i].b], it.obs[i].w)
        THEN "register:" \o it.obs[CHOOSE i \in 1..Len(it.obs) : FromBytes(ra.env.ids[it.obs[i].a], it.obs[i].w) # FromBytes(rb.env.ids[it.obs[i].b], it.obs[i].w)].a
   ELSE "ok"
